@@ -6,6 +6,7 @@ use glonax::driver::HydraulicControlUnit;
 use glonax::runtime::{J1939Unit, NetDriverContext};
 
 pub fn exec(c: &[i64]) -> Vec<i64> {
+    if c[0] == 1000 { return crate::authrig::exec(&c[1..]); }
     let (da, sa) = (c[0] as u8, c[1] as u8);
     let evs = c[2..].to_vec();
     let r = std::panic::catch_unwind(move || {
@@ -113,6 +114,35 @@ pub fn gen(o: &Opts, sink: &mut dyn FnMut(Vec<i64>, String)) {
             let l = match rng.below(10) { 0 | 1 | 2 => 0, 3 | 4 => 1 + rng.below(5), _ => rng.below(14) };
             letter(l, da, sa, &mut rng, &mut c);
         }
+        sink(c, String::new());
+    }
+    // the same property through the real NetworkAuthority on the emulated bus (command, tick and
+    // receive paths sharing the driver context), incl. commands whose socket write FAILS
+    let n = if o.tier_thorough { 6_000 } else { 600 };
+    for j in 0..n {
+        k += 1;
+        if !mine(o, k) { continue; }
+        let mut rng = Rng::new(o.seed, 9_000_000 + j);
+        let (da, sa): (i64, Option<i64>) = match rng.below(4) { 0 => (0x4A, Some(0x31)), 1 => (0x01, None), _ => (0x4A, None) };
+        let mut c = vec![1000]; c.extend(crate::c10::config(&[(1, da, sa, 0)]));
+        if rng.chance(3, 4) { c.push(5); }
+        c.push(2);
+        let len = 3 + rng.below(14);
+        for _ in 0..len {
+            let mut m = Vec::new();
+            match rng.below(12) {
+                0 | 1 | 2 => c.push(2),
+                3 | 4 => { letter(1 + rng.below(5), da, sa.unwrap_or(0x27), &mut rng, &mut m); c.push(3); c.extend(&m[1..]); }
+                5 | 6 | 7 => { // accepted, but nothing leaves the socket
+                    let l = if rng.chance(1, 2) { 1 } else { 1 + rng.below(5) };
+                    letter(l, da, sa.unwrap_or(0x27), &mut rng, &mut m); c.push(8); c.extend(&m[1..]); }
+                8 => { c.push(7); c.push(*rng.pick(&[2i64, 3, 4, 6])); }
+                9 => { letter(10 + rng.below(2), da, sa.unwrap_or(0x27), &mut rng, &mut m);
+                       c.push(1); c.push(m[1]); c.push(8); c.extend(&m[2..]); }
+                _ => c.push(2),
+            }
+        }
+        c.push(2);
         sink(c, String::new());
     }
 }
